@@ -35,7 +35,7 @@ CHECKS = {
                   "the spec's own codec; random histories through the facade over both transports against a live target are "
                   "replayed by TLC's target from the received CDBs (Trace_Target); behaviours of the "
                   "composition Initiator.tla (I/O + injected CHECK CONDITION/BUSY + node replacement/removal + re-attach), "
-                  "exhaustive to 5 steps and by TLC -simulate to 24 steps, replayed step by step on the real facade; Initiator.tla arms every status SAM names and has the caller's re-encoded long-lived read object as an action; histories re-issue kept READ CAPACITY / INQUIRY objects after the target changed (resize events)",
+                  "exhaustive to 5 steps and by TLC -simulate to 24 steps, replayed step by step on the real facade; Initiator.tla arms every status SAM names and has the caller's re-encoded long-lived read object as an action; histories re-issue kept READ CAPACITY / INQUIRY objects after the target changed (resize events); the caller's long-lived write objects with refilled buffers (Rewrite)",
         text="Every I/O event carries the caller's arguments and data, the CDB and data-out the binding received, what "
              "the target returned and what the caller sees; TLC checks target-recovers-arguments, write data reaches the "
              "target, reads return what was last written at the LBAs the caller named (LBAs around 0, 2^32, 2^64), "
@@ -64,7 +64,7 @@ CHECKS = {
     "C04": dict(
         technique="parameter-data formats transcribed into TLA+ as parsers with well-formedness predicates (T10Data.tla); "
                   "every decoder call on generated responses is an event; TLC re-derives the expected values from the "
-                  "bytes and judges the library's flattened result (Trace_Data); ATA Information VPD page and iSCSI names of TransportIDs included; a second observation point (one long-lived command per format, buffer re-filled in place, cmd.unmarshall()) is judged the same way",
+                  "bytes and judges the library's flattened result (Trace_Data); ATA Information VPD page and iSCSI names of TransportIDs included; a second observation point (one long-lived command per format, buffer re-filled in place, cmd.unmarshall()) is judged the same way; NothingInvented: element descriptors may only carry the type-specific fields the specification reads for their element type",
         text="25 response formats (standard INQUIRY, VPD 00/80/83 with all designator kinds/86/B0/B1/B2/B3, MODE SENSE "
              "6/10 with four page kinds, READ CAPACITY 10/16, GET LBA STATUS, REPORT LUNS, RTPG both headers, REPORT "
              "PRIORITY, READ ELEMENT STATUS, PR IN x4 with TransportIDs, READ DISC INFORMATION x3): random/boundary field "
@@ -108,7 +108,7 @@ CHECKS = {
     "C09": dict(
         technique="object-level behaviours of Command.tla (construct/probe/discard over live objects, action property "
                   "Isolation) instantiated with all ordered class pairs; thread schedules enumerated by TLC from Sched.tla "
-                  "(preemption-bounded, line granularity) and executed by a settrace scheduler on real threads; the parameter-data codecs of other commands as disturbers fed the victims' own field values; every class's reference CDB decoded by every other class of equal length (expected by T10Cdb!DictDecode); first use in a pristine process (before / after creating an instance); same class in both threads",
+                  "(preemption-bounded, line granularity) and executed by a settrace scheduler on real threads; the parameter-data codecs of other commands as disturbers fed the victims' own field values; every class's reference CDB decoded by every other class of equal length (expected by T10Cdb!DictDecode); first use in a pristine process (before / after creating an instance); same class in both threads; refused constructions as the other command; outcomes of 300 data-decode calls compared with the outcome each has in a process of its own; one caller buffer shared by two write commands",
         text="After every action of every exported behaviour each live object's CDB/buffers and the probed class's "
              "decode/re-encode are compared with the class's isolated reference (itself validated by TLC against "
              "T10Cdb.tla). All 42x42 ordered pairs on the canonical sequences, every behaviour on 10 representative "
@@ -121,7 +121,7 @@ CHECKS = {
         technique="transport state machine (Transport.tla: target completes -> binding reports -> library maps, command "
                   "objects re-executed) model-checked by TLC; every (history, status 0..255, sense, raw flag) case replayed "
                   "on real SCSIDevice/ISCSIDevice over stand-in bindings and through three facade routes; random fault "
-                  "sequences judged by Trace_Transport; truncated sense buffers among the sense identifiers; every CheckCondition raised is held and re-inspected at the end",
+                  "sequences judged by Trace_Transport; truncated sense buffers among the sense identifiers; every CheckCondition raised is held and re-inspected at the end; context-manager routes with a failing iSCSI disconnect; a binding variant that reports CHECK CONDITION with an empty sense buffer (transport sgio_e in TransportRules)",
         text="TLC checks NoSilentFailure, SenseFaithful, NamedStatusNamedError, GoodReturns on the design for all "
              "histories of two re-usable command objects; the exported cases drive the real devices with all 256 status "
              "values, four sense kinds, stale-sense histories, raw on/off, direct and facade routes.",
@@ -176,7 +176,7 @@ CHECKS = {
         ref="6 C03"),
     "C14": dict(
         technique="T10 opcode/service-action/status tables in TLA+ (T10Opcodes.tla), self-consistency by TLC "
-                  "(MC_Opcodes); library tables walked exhaustively and judged by a stateful TLC trace spec; CDB length through marshall_cdb on one class for all 256 codes in four orders",
+                  "(MC_Opcodes); library tables walked exhaustively and judged by a stateful TLC trace spec; CDB length through marshall_cdb on one class for all 256 codes in four orders; every entry of one set adapted through the public API and the other sets walked again",
         text="Exhaustive: every entry of the five tables, every service-action entry, every status and all 256 opcode "
              "values for the CDB length rule; SameNameSameValue is judged over the whole walk for all names.",
         note="Values transcribed from memory and cross-read against scsi/scsi.h and linux/cdrom.h; names unknown to "
@@ -193,7 +193,7 @@ CHECKS = {
         ref="6 C17"),
     "C10": dict(
         technique="TLA+ state machine of the codec (MC_Bits) model-checked by TLC; its terminal states replayed into "
-                  "encode_dict/decode_bits; recorded calls judged by TLC against Bits.tla (Trace_Bits); masks spanning further bytes after the field; returned bytearrays mutated by the caller and the call repeated",
+                  "encode_dict/decode_bits; recorded calls judged by TLC against Bits.tla (Trace_Bits); masks spanning further bytes after the field; returned bytearrays mutated by the caller and the call repeated; several blobs of mixed kinds in one call (encode_blobs), decoded blobs are values of their own (blob_snapshot)",
         text="TLC checks the codec laws (read-back, locality, order independence, int<->bytes) on an explicit TLA+ "
              "model for every layout of 1-3 disjoint fields in a small buffer and all write orders; every terminal "
              "state is replayed into the real functions, and recorded calls with wide/unaligned/random layouts are "
